@@ -287,6 +287,19 @@ def main():
         if nm.split(":")[1] in ("valuespec-dots", "case-dots", "return-dots", "composite-empty", "params-dots", "results-dots", "struct-fields-dots",
                                   "for-dots-kinds", "for-dots-labeled", "fields-embedded", "iface-embedded", "spread-pair", "spread-both", "spread-context"):
             pairs.append(("p.patch", pt, "a.go", body)); names.append("empty-run:" + nm); meta.append(("empty-run", None, None, None))
+    # an explicit elision followed by a statement that begins with any kind of token (the scanner that tells an elision from
+    # a variadic '...' looks at what follows the dots)
+    STARTERS = ["*p = 1", "<-done", "(*f).Close()", "func() { a() }()", "[]int{1}[0]++", "map[string]int{}[\"k\"]++", "interface{}(v).(T).M()",
+                "struct{ A int }{}.A++", "chan int(nil) <- 1", "x.y()", "x := 1", "x, y = 1, 2", "if c {\n\t\ta()\n\t}", "for {\n\t\ta()\n\t}", "go a()", "defer a()",
+                "return", "switch {\n\t}", "var v int", "L:\n\ta()", "goto L", "-x", "+x", "!x", "^x", "&x", "1", "\"s\"", "'c'", "{\n\t\ta()\n\t}", "select {\n\t}",
+                "type T int", "const c = 1", "break", "continue"]
+    for j, st in enumerate(STARTERS):
+        pl = "\n".join("-" + l.replace("\t\t", "  ").replace("\t", "") for l in st.split("\n"))
+        body = "func h() {\n\tbegin()\n\tmid()\n\t%s\n\tend()\n}\n" % st
+        if st in ("break", "continue"):
+            body = "func h() {\n\tfor {\n\t\tbegin()\n\t\tmid()\n\t\t%s\n\t}\n}\n" % st
+        pairs.append(("p.patch", ("@@\n@@\n begin()\n ...\n%s\n+finished()\n" % pl).encode(), "a.go", ("package p\n\n" + body).encode()))
+        names.append("dots-then#%d" % j); meta.append(("dots-then", None, None, None))
     for j, (pt, body) in enumerate(ASSOC):
         pairs.append(("p.patch", pt.encode(), "a.go", ("package p\n\n" + body).encode())); names.append("assoc#%d" % j); meta.append(("assoc", None, None, None))
     # for-headers
@@ -369,7 +382,10 @@ def main():
                                      % (" ".join(pat), " ".join(l), want, got),
                                      {"patch": pair[1].decode(), "block": l, "expected": want, "got": got})
         enginecheck.report(ck, name, (pair[0], pair[1], pair[2], pair[3][:1500]), o, "any",
-                           {"must_parse": True} if kind in ("empty-run", "assoc") else None)
+                           {"must_parse": True} if kind in ("empty-run", "assoc", "dots-then") else None)
+        if kind == "dots-then" and not o["skipped"] and b"finished()" not in (unb64(r["out"]) if r.get("out") else b""):
+            ck.violation("an elision followed by a statement (%s): the statement after the elided run was not rewritten" % name,
+                         {"patch": pair[1].decode(), "file": pair[3].decode(), "output": (unb64(r["out"]) if r.get("out") else b"").decode("utf-8", "replace")})
     ck.notes["pattern_list_pairs_judged_by_reference"] = npairs
     ck.sample({"case": names[10], "patch": pairs[10][1].decode(), "lists": len(base_lists)})
     ck.sample({"case": names[-30], "patch": pairs[-30][1].decode()})
